@@ -465,6 +465,27 @@ class Layouts:
             return self.width(term[2], depth + 1)
         return None
 
+    def min_width(self, term, depth=0):
+        """A lower bound of the bytes a successful application of the term consumes (0 when nothing is known)."""
+        k = term[0]
+        if depth > 12:
+            return 0
+        if k == "prim":
+            return term[2]
+        if k in ("map", "mapres", "complete"):
+            return self.min_width(term[1], depth + 1)
+        if k == "closure":
+            return self.min_width(term[2], depth + 1)
+        if k == "take":
+            v = const_eval(peel(term[1], widen=True))
+            return min(v) if v else 0
+        if k == "struct":
+            lay = self.parser_layout(term[2])
+            if not lay["ok"]:
+                return 0
+            return sum(self.min_width(s["term"], depth + 1) for s in lay["steps"])
+        return 0
+
     def struct_width(self, path):
         lay = self.parser_layout(path)
         if not lay["ok"]:
